@@ -265,6 +265,7 @@ let call_of_string s =
   | ["UPD"; u] -> CUpdate (update_of_string u)
   | ["RV"] -> CReadVis | ["RH"] -> CReadHid | ["RC"] -> CReadCnt | ["LIST"] -> CList
   | ["NEXT"] -> CNext
+  | ["SNAP"] -> CSnapshot
   | _ -> failwith ("bad call " ^ s)
 
 let string_of_result_semi r =
@@ -277,6 +278,8 @@ let string_of_ret = function
   | RetUpd UErr -> "upd:err"
   | RetNum n -> "num:" ^ string_of_n n
   | RetList l -> "list:" ^ list_str string_of_order l
+  | RetSnap (v, h, c, l) ->
+    Printf.sprintf "snap:%s/%s/%s/%s" (string_of_n v) (string_of_n h) (string_of_n c) (list_str string_of_order l)
 
 let thread_rets (t : thread) =
   (* returns of completed calls, plus the current one if it is Done *)
